@@ -339,7 +339,7 @@ func genGateway(seed uint64, tier string) *RunConfig {
 		add(mkNamespace("c", map[string]string{"team": "red"}))
 	}
 	add(g.gen(mkGatewayClass("haproxy", gwController)))
-	add(g.gen(mkGatewayClass("foreign", "example.com/other")))
+	add(g.gen(mkGatewayClass("foreign", g.of("example.com/other", "example.com/other", gwController+"/internal"))))
 	idx := 0
 	for _, ns := range []string{"a", "b", "c"} {
 		for _, s := range gwSvcs[ns] {
@@ -376,10 +376,34 @@ func genGateway(seed uint64, tier string) *RunConfig {
 			add(g.gen(g.httpRoute(ns, routeNames[g.pick(3)])))
 		}
 	}
+	// a companion Ingress of our class on hosts the routes use (the default host among them), under a path
+	// no probe asks for: its partial syncs rebuild hosts that Gateway API routes share
+	companion := func() client.Object {
+		ns := g.of("a", "b")
+		hosts := []string{"", "app.local", "web.local", "gw.local"}
+		var rules []ruleSpec
+		for i, n := 0, 1+g.pick(2); i < n; i++ {
+			rules = append(rules, ruleSpec{Host: hosts[g.pick(len(hosts))], Paths: []pathSpec{{Path: "/ing", Svc: "s1", Port: "80"}}})
+		}
+		ann := map[string]string{"kubernetes.io/ingress.class": ingressClassName, annPrefix + "balance-algorithm": g.of("leastconn", "roundrobin", "first")}
+		return g.gen(mkIngress(ns, "companion", 1, ann, nil, rules, nil, nil))
+	}
+	withIngress := g.chance(1, 2)
+	if withIngress && g.chance(2, 3) {
+		add(companion())
+	}
 	// history
 	mn, mx := tierOps(tier, 4, 16)
 	nops := mn + g.pick(mx-mn+1)
 	for i := 0; i < nops; i++ {
+		if withIngress && g.chance(1, 4) {
+			if g.chance(1, 5) {
+				rc.Ops = append(rc.Ops, deleteOp(KIngress, g.of("a", "b")+"/companion", "companion ingress delete"))
+			} else {
+				rc.Ops = append(rc.Ops, applyOp(companion(), "companion ingress"))
+			}
+			continue
+		}
 		switch g.pick(10) {
 		case 0, 1:
 			ns := g.of("a", "b")
@@ -396,9 +420,9 @@ func genGateway(seed uint64, tier string) *RunConfig {
 			rc.Ops = append(rc.Ops, applyOp(g.gen(g.tcpRoute(ns, "t"+fmt.Sprint(1+g.pick(2)))), "tcproute"))
 		case 8:
 			if g.chance(1, 2) {
-				rc.Ops = append(rc.Ops, applyOp(g.gen(mkGatewayClass("haproxy", g.of(gwController, "example.com/other"))), "class controller"))
+				rc.Ops = append(rc.Ops, applyOp(g.gen(mkGatewayClass("haproxy", g.of(gwController, "example.com/other", gwController+"/internal"))), "class controller"))
 			} else {
-				rc.Ops = append(rc.Ops, applyOp(g.gen(mkGatewayClass("nowhere", g.of(gwController, "example.com/other"))), "class appears"))
+				rc.Ops = append(rc.Ops, applyOp(g.gen(mkGatewayClass("nowhere", g.of(gwController, "example.com/other", gwController+"/internal"))), "class appears"))
 			}
 		case 9:
 			rc.Ops = append(rc.Ops, Op{Type: "advance", Ms: 500 + g.pick(3000)})
